@@ -25,7 +25,7 @@ TESTS=$(cat /tmp/mut_tests.txt)
 echo "tests with change: $TESTS"
 
 if ! git -C /repo diff --quiet; then echo "/repo has uncommitted changes - abort"; exit 2; fi
-git -C /repo apply "$D/patch.diff" || { echo "patch does not apply to /repo"; exit 2; }
+git -C /repo apply "$PWD/$D/patch.diff" || { echo "patch does not apply to /repo"; exit 2; }
 RES=""
 for C in $CHECKS; do
   OUT=$(VERIF_SEED=${VERIF_SEED:-1} ./check $C --tier quick 2>&1 | grep -v Warning | grep -v '\$')
